@@ -16,7 +16,7 @@ set_option linter.unusedVariables false
 
 /-- a positioned token occupying `[f, g]`; `strong`: it also ends within the input -/
 def TokInV (strong : Bool) (len f : Nat) (t : Token) (g : Nat) : Prop :=
-  ∃ a b, t.pos = some (a, b) ∧ f ≤ a ∧ a < b ∧ b ≤ g ∧ (strong = true → b ≤ len)
+  ∃ a b, t.pos = some (a, b) ∧ f ≤ a ∧ a < b ∧ b ≤ g ∧ (strong = true → b ≤ len) ∧ WNE t
 
 def ValInV (s : Bool) (len f : Nat) (v : SVal) (g : Nat) : Prop :=
   match v with
@@ -66,8 +66,8 @@ theorem SegV.mono {s : Bool} {len : Nat} : ∀ {xs : List SVal} {f f' g g' : Nat
 
 theorem tokInV_strong {len f g : Nat} {t : Token} (h : TokInV false len f t g) (hg : g ≤ len) :
     TokInV true len f t g := by
-  obtain ⟨a, b, hp, ha, hab, hb, _⟩ := h
-  exact ⟨a, b, hp, ha, hab, hb, fun _ => by omega⟩
+  obtain ⟨a, b, hp, ha, hab, hb, _, hw⟩ := h
+  exact ⟨a, b, hp, ha, hab, hb, (fun _ => by omega), hw⟩
 
 theorem ValInV.weak {len f g : Nat} {v : SVal} (h : ValInV true len f v g) : ValInV false len f v g := by
   cases v with
@@ -75,8 +75,8 @@ theorem ValInV.weak {len f g : Nat} {v : SVal} (h : ValInV true len f v g) : Val
   | node n => exact h
   | nodes l => exact h
   | tok t =>
-    obtain ⟨a, b, hp, h1, h2, h3, h4⟩ := h
-    exact ⟨a, b, hp, h1, h2, h3, (fun hc => by cases hc)⟩
+    obtain ⟨a, b, hp, h1, h2, h3, h4, hw⟩ := h
+    exact ⟨a, b, hp, h1, h2, h3, (fun hc => by cases hc), hw⟩
 
 theorem SegV.weak {len : Nat} : ∀ {xs : List SVal} {f g : Nat}, SegV true len f xs g →
     SegV false len f xs g
@@ -113,9 +113,9 @@ theorem segV_of_seg {s : Bool} {len : Nat} : ∀ {xs : List (Nat × SVal)} {f g 
     | nodes l => exact h1
     | tok t =>
       obtain ⟨hle, h3⟩ := h1
-      rcases h3 with h3 | ⟨a, b, hp, ha, hab, hb⟩
+      rcases h3 with h3 | ⟨a, b, hp, ha, hab, hb, hw⟩
       · exact absurd h3.1 hx
-      · exact ⟨a, b, hp, ha, hab, hb, fun hst => by have := hg hst; omega⟩
+      · exact ⟨a, b, hp, ha, hab, hb, (fun hst => by have := hg hst; omega), hw⟩
 
 theorem valIn_of_valInV {s : Bool} {len f g sym : Nat} {v : SVal} (h : ValInV s len f v g)
     (hs : s = true ∨ ∀ t, v ≠ .tok t) : ValIn len f (sym, v) g := by
@@ -125,8 +125,8 @@ theorem valIn_of_valInV {s : Bool} {len f g sym : Nat} {v : SVal} (h : ValInV s 
   | nodes l => exact h
   | tok t =>
     rcases hs with hs | hs
-    · obtain ⟨a, b, hp, ha, hab, hb, hr⟩ := h
-      exact ⟨by omega, Or.inr ⟨a, b, hp, ha, hab, hb⟩⟩
+    · obtain ⟨a, b, hp, ha, hab, hb, hr, hw⟩ := h
+      exact ⟨by omega, Or.inr ⟨a, b, hp, ha, hab, hb, hw⟩⟩
     · exact absurd rfl (hs t)
 
 /-! ## no pending redirects -/
@@ -169,7 +169,7 @@ theorem tok_lexspan {t : Token} {a b : Nat} (h : t.pos = some (a, b)) :
 /-- the word node of a positioned token, as a value -/
 theorem WordAt.nodeIn {s : Bool} {len f g : Nat} {t : Token} {w : Node} (h : WordAt len t w)
     (ht : TokInV s len f t g) (hs : s = true) : NodeIn len f w g ∧ NoPend w := by
-  obtain ⟨a, b, hp, ha, hab, hb, hr⟩ := ht
+  obtain ⟨a, b, hp, ha, hab, hb, hr, hw⟩ := ht
   obtain ⟨h1, h2⟩ := h.2 a b hp hab (hr hs)
   exact ⟨h1.mono ha hb, h2⟩
 
@@ -178,7 +178,7 @@ theorem WordAt.nodeIn {s : Bool} {len f g : Nat} {t : Token} {w : Node} (h : Wor
 theorem nodeIn_reservedword {len f g : Nat} {t : Token} {w : Str} (ht : TokInV true len f t g) :
     NodeIn len f (.reservedword (t.lexpos, t.endlexpos) w) g ∧
       NoPend (.reservedword (t.lexpos, t.endlexpos) w) := by
-  obtain ⟨a, b, hp, ha, hab, hb, hr⟩ := ht
+  obtain ⟨a, b, hp, ha, hab, hb, hr, hw⟩ := ht
   obtain ⟨h1, h2⟩ := tok_lexspan hp
   rw [h1, h2]
   exact ⟨nodeIn_leaf rfl rfl rfl ha hab hb (hr rfl) trivial, noPend_leaf rfl rfl⟩
@@ -186,7 +186,7 @@ theorem nodeIn_reservedword {len f g : Nat} {t : Token} {w : Str} (ht : TokInV t
 theorem nodeIn_operator {len f g : Nat} {t : Token} {w : Str} (ht : TokInV true len f t g) :
     NodeIn len f (.operator (t.lexpos, t.endlexpos) w) g ∧
       NoPend (.operator (t.lexpos, t.endlexpos) w) := by
-  obtain ⟨a, b, hp, ha, hab, hb, hr⟩ := ht
+  obtain ⟨a, b, hp, ha, hab, hb, hr, hw⟩ := ht
   obtain ⟨h1, h2⟩ := tok_lexspan hp
   rw [h1, h2]
   exact ⟨nodeIn_leaf rfl rfl rfl ha hab hb (hr rfl) trivial, noPend_leaf rfl rfl⟩
@@ -194,7 +194,7 @@ theorem nodeIn_operator {len f g : Nat} {t : Token} {w : Str} (ht : TokInV true 
 theorem nodeIn_pipe {len f g : Nat} {t : Token} {w : Str} (ht : TokInV true len f t g) :
     NodeIn len f (.pipe (t.lexpos, t.endlexpos) w) g ∧
       NoPend (.pipe (t.lexpos, t.endlexpos) w) := by
-  obtain ⟨a, b, hp, ha, hab, hb, hr⟩ := ht
+  obtain ⟨a, b, hp, ha, hab, hb, hr, hw⟩ := ht
   obtain ⟨h1, h2⟩ := tok_lexspan hp
   rw [h1, h2]
   exact ⟨nodeIn_leaf rfl rfl rfl ha hab hb (hr rfl) trivial, noPend_leaf rfl rfl⟩
